@@ -1,12 +1,55 @@
-/- Drv/C05.lean — driver handler for property C05 (line protocol; core-only imports). -/
+/- Drv/C05.lean — driver handler for property C05 (bound variables are invisible). -/
 import FunsorVerif.Core.Sexp
 import FunsorVerif.Core.XR
+import FunsorVerif.Model.TermParse
+import FunsorVerif.Model.C05
 namespace FV.Drv.C05
-open FV
+open FV FV.C05
 
-/-- `args` are the top-level S-expressions following the property tag on the request line. -/
+def namesSexp (l : List Name) : Sexp := Sexp.list (l.map Sexp.str)
+
+/--
+  C05 denote TERM (("n" size)*) ENV   table of the textbook value (Model/Term.lean `denote`)
+  C05 names TERM                      ok (fv…) (bound…) (allBound…)
+  C05 mangle TERM                     `reflect` from an empty cons cache and counter 0:
+                                      ok (allBound of the result…) COUNTER TERM'
+  C05 mangle-nocache TERM             the same without hash-consing
+  C05 rename TERM "old" "new"         ok TERM'  = renameRoot old new (what `_alpha_convert` does)
+  C05 push TERM (("k" TERM)*)         ok TERM'  = pushUnder σ t (one step of `substitute`)
+-/
 def handle (args : List Sexp) : String :=
   match args with
-  | _ => "err unimplemented"
+  | Sexp.atom "denote" :: rest => (handleDenote rest).getD "err bad-args"
+  | [Sexp.atom "names", t] =>
+    match parseTerm t with
+    | some t => "ok " ++ toString (namesSexp t.fv) ++ " " ++ toString (namesSexp (bound t)) ++ " "
+        ++ toString (namesSexp (allBound t))
+    | none => "err bad-term"
+  | [Sexp.atom "mangle", t] =>
+    match parseTerm t with
+    | some t =>
+      let r := reflect0 t
+      "ok " ++ toString (namesSexp (allBound r.1)) ++ " " ++ toString r.2.counter ++ " " ++ toString (termSexp r.1)
+    | none => "err bad-term"
+  | [Sexp.atom "mangle-nocache", t] =>
+    match parseTerm t with
+    | some t =>
+      let r := reflectT (fun _ _ => false) t ⟨0, []⟩
+      "ok " ++ toString (namesSexp (allBound r.1)) ++ " " ++ toString r.2.counter ++ " " ++ toString (termSexp r.1)
+    | none => "err bad-term"
+  | [Sexp.atom "rename", t, x, y] =>
+    match parseTerm t, x.asStr?, y.asStr? with
+    | some t, some x, some y => "ok " ++ toString (termSexp (renameRoot x y ⟨DType.bint 1, []⟩ t))
+    | _, _, _ => "err bad-args"
+  | [Sexp.atom "push", t, σ] =>
+    match parseTerm t, σ.asList? with
+    | some t, some items =>
+      match items.mapM (fun x => match x with
+          | Sexp.list [k, v] => do pure ((← k.asStr?), (← parseTerm v))
+          | _ => none) with
+      | some σ => "ok " ++ toString (termSexp (pushUnder σ t))
+      | none => "err bad-subs"
+    | _, _ => "err bad-args"
+  | _ => "err bad-request"
 
 end FV.Drv.C05
